@@ -109,3 +109,10 @@ Proof.
        else tok_shape u (is_regex_ctx []) && boundary_ok u (hd_opt (emit_from true (snd u) (fst u) r)) && wf [u] r).
     rewrite Ews. apply andb_true_iff; split; [apply andb_true_iff; split|]; [exact Hsh|exact Hb|exact Hw].
 Qed.
+
+Lemma minified_relex :
+  forall order src rs, rename_locals true order (strip_comments (tokenize src)) = Some rs -> wf [] rs = true ->
+    exists out, minify1 true order src = Some out /\ strip_ws (tokenize out) = strip_ws rs.
+Proof.
+  intros order src rs H Hw. unfold minify1. rewrite H. eexists. split; [reflexivity|]. apply relex_lists. exact Hw.
+Qed.
